@@ -95,6 +95,8 @@ def finish(out: Outcome, *, level: str = "model_checking") -> int:
     known = load_known(out.prop)
     REPLAYS.mkdir(exist_ok=True)
     EVID.mkdir(exist_ok=True)
+    for old in REPLAYS.glob(f"{out.prop}_{out.tier}_*.json"):
+        old.unlink()
     unknown: List[Divergence] = []
     known_hits: Dict[str, int] = {}
     known_entries: Dict[str, dict] = {}
